@@ -302,7 +302,7 @@ func TestC04Pairs(t *testing.T) {
 func TestC04Chains(t *testing.T) {
 	run := h.Begin("C04", "chains", "rapid: chains of 2-4 operations over + - * / % with explicit parentheses; the reference rounds every intermediate result to 34 digits as every computed number is; oracle and non-trivial rule as for pairs; distinct by formula")
 	defer run.End(t)
-	h.RapidSetup(h.N(8000, 800000), "c04chains")
+	h.RapidSetup(h.N(8000, 2000000), "c04chains")
 	rapid.Check(t, func(rt *rapid.T) {
 		n := rapid.IntRange(2, 4).Draw(rt, "nops")
 		c := arithCase{Style: rapid.IntRange(0, 3).Draw(rt, "style")}
